@@ -74,6 +74,21 @@ Theorem C06_if_let : forall rec spec thn rest s c pr,
 Proof. exact if_let_expansion. Qed.
 Print Assumptions C06_if_let_star. Print Assumptions C06_if_let.
 
+(* One expansion step of a user macro.  A list whose head is a symbol bound to     *)
+(* `Mac ps body` expands by applying the definition to the argument forms AS        *)
+(* WRITTEN - `eval_function` with evalp = false, which by                           *)
+(* C02_values_not_reevaluated distributes exactly `items args` over the parameters  *)
+(* without calling the interpreter: the forms are neither evaluated nor expanded    *)
+(* before the definition sees them (outside-in) - then expanding the result again,  *)
+(* then its elements.                                                                *)
+Theorem C06_user_macro_step : forall F f head k ps body args s,
+  key_of head = Some k -> sym_get head s = (Ok (Mac ps body), s) ->
+  run F (S f) (TExpand (Cons head args)) s =
+  bind (eval_function (run F f) false ps body args)
+       (fun e => bind (run F f (TExpand e)) (fun x => expand_elems (run F f) x)) s.
+Proof. exact user_macro_step. Qed.
+Print Assumptions C06_user_macro_step.
+
 Print Assumptions C06_macro_call_is_expansion. Print Assumptions C06_user_macro_call_is_expansion.
 Print Assumptions C06_expanded_is_fixpoint. Print Assumptions C06_quoted_untouched.
 Print Assumptions C06_atoms_untouched. Print Assumptions C06_when. Print Assumptions C06_unless.
@@ -101,6 +116,12 @@ Proof. vm_compute. reflexivity. Qed.
 Example C06_ex3 :
   ev0 "(list (if-let* ((a 1) (b (+ a 1))) (list a b) 'no) (if-let* ((a 1) (b nil) (c (car 5))) 'yes 'no) (->> '(1 2 3) (mapcar '1+) (nth 1)))"
   = ev0 "'((1 2) no 3)".
+Proof. vm_compute. reflexivity. Qed.
+
+(* outside-in: a macro that quotes or inspects its argument sees the form as written *)
+Example C06_ex4 :
+  ev0 "(defmacro show (form) `(list ',form ,form)) (defmacro op-of (form) (list 'quote (car form))) (setq c t) (setq x 5) (list (show (when c x)) (op-of (when c x)) (macroexpand '(show (unless c x))))"
+  = ev0 "'(((when c x) 5) when (list '(unless c x) (if c nil x)))".
 Proof. vm_compute. reflexivity. Qed.
 
 (* REFUTED for a macro call in head position (defect D36, known finding): the   *)
